@@ -788,3 +788,17 @@ package template
 //@   requires !isnil(n)
 //@   ensures reentry: nodeName == "range" && r.state != stateError ==> nudgest(namedlike(c, "esclist", c, n.List).state) == nudgest(namedlike(c, "esclist", namedlike(c, "esclist", c, n.List), n.List).state) && nudgedl(namedlike(c, "esclist", c, n.List).state, namedlike(c, "esclist", c, n.List).delim) == nudgedl(namedlike(c, "esclist", namedlike(c, "esclist", c, n.List), n.List).state, namedlike(c, "esclist", namedlike(c, "esclist", c, n.List), n.List).delim)
 //@   ensures branches: r.state != stateError ==> nudgest(namedlike(c, "esclist", c, n.List).state) == nudgest(namedlike(c, "esclist", c, n.ElseList).state) && nudgedl(namedlike(c, "esclist", c, n.List).state, namedlike(c, "esclist", c, n.List).delim) == nudgedl(namedlike(c, "esclist", c, n.ElseList).state, namedlike(c, "esclist", c, n.ElseList).delim)
+
+//@ func (e *escaper) computeOutCtx(c context, t *template.Template) (r context)
+//@   serves C05 C08
+//@   option embedded nameSpace.esc
+//@   option allocates
+//@   option modifies @ANALYSISMAPS @DERIVEDTREES
+//@   option casesplit true
+//@   requires !isnil(t)
+//@   ensures fixpoint: r.state != stateError ==> namedlike(true, "etbok", c, t) || namedlike(true, "etbok", namedlike(c, "etb", c, t), t)
+//@   ensures first: namedlike(true, "etbok", c, t) ==> identical(r, namedlike(c, "etb", c, t))
+//@   ensures treesfresh: onlyfresh("TT_Template.Tree parse_Tree.Name#b parse_Tree.Name#o parse_Tree.Name#l")
+//@   ensures derivedok: forallkey(w, haskeym(e.derived, w) ==> !isnil(e.derived[w]))
+//@   ensures editkeys: forallref(p, haskeym(e.actionNodeEdits, p) || haskeym(e.templateNodeEdits, p) || haskeym(e.textNodeEdits, p) ==> !isnil(p))
+//@   ensures escmaps: !isnil(e.output) && !isnil(e.derived) && !isnil(e.called)
